@@ -189,6 +189,7 @@ var c10Msgs = []string{
 	"{$a.b}{$a?.b}{$a['b']}{$a.b}",                                 // 13 access styles of one field
 	"1 < 2 <b>x</b> and a <= b <br/> c",   // 14 '<' that does not begin a tag, before real tags
 	"<<a href=\"u\">>t</a> < </b>",          // 15
+	"{plural $n}{case 0}none{case 2}two{case 1}one {$n}{default}{$n} many{/plural}", // 16 several explicit cases
 }
 
 // the official placeholder string of some messages (what their id is the fingerprint of)
@@ -337,8 +338,12 @@ func refNames(m *ast.MsgNode) string {
 func H_names(msg, site int) {
 	ref := c10Parse(msg)
 	SetPlaceholdersAndID(ref) // insertion-order run
+	if site == 4 {
+		// (site 4: any map loop of the parser's plural handling)
+		verifMapOrder("func:parsePlural#0")
+	}
 	m := c10Parse(msg)
-	if site >= 0 {
+	if site >= 0 && site < 4 {
 		verifMapOrder("func:setPlaceholderNames#" + strconv.Itoa(site))
 	}
 	SetPlaceholdersAndID(m)
